@@ -279,7 +279,7 @@ PROPS["C13"] = dict(
     level_note="Trusted: Kani/CBMC/CaDiCaL; the invariant and model in harness/src/c13.rs; the induction argument; "
                "capacities bounded as listed.",
     design_ref="DESIGN.md §3 C13",
-    cap=dict(quick=600, thorough=3600),
+    cap=dict(quick=600, thorough=3600), mem_gb=26, jobs=4,
     harnesses=[_c13(n, t, steps=st, bounds=b, **kw) for (n, t, st, b, kw) in [
         ("c13_insert_c4", "quick", 1, "any valid state at capacity 4 + insert(any non-zero handle), below threshold", {}),
         ("c13_insert_c4_grow", "quick", 1, "capacity 4 at threshold + insert: growth 4->8", {}),
@@ -290,6 +290,8 @@ PROPS["C13"] = dict(
         ("c13_entry_c4_grow", "quick", 1, "capacity 4 at threshold + entry of a new handle", {}),
         ("c13_clear_c4", "quick", 2, "capacity 4: clear then insert", {}),
         ("c13_clone_c4", "quick", 1, "capacity 4: clone", {}),
+        ("c13_clone_c8_n4", "quick", 1, "capacity 8 with exactly four entries (slots 0,2,5,6): clone is a faithful map with a free slot, lookups terminate", {}),
+        ("c13_clone_c4_n2", "thorough", 1, "capacity 4 with exactly two entries (slots 1,2): clone", {}),
         ("c13_reserve_c4_3_m6", "thorough", 1, "capacity 4, slots 1,2 occupied: reserve(3) -> growth to 8", {}),
         ("c13_reserve_c4_2_noop", "thorough", 1, "capacity 4, slots 0,2 occupied: reserve(2) is a no-op", {}),
         ("c13_iter_c4", "quick", 1, "capacity 4: iter/iter_mut", {}),
@@ -751,6 +753,7 @@ PROPS["C10"] = dict(
         H("c10", "c10_span_table", bounds="span for every byte value"),
         _cx("cx_resolve_var_d2", "x", bounds="(did not close: 13.5 GB after 19 min) compiler: closure in closure in function, 2+1+1 locals with solver-chosen names, 2 earlier resolves per closure level, any queried name: the upvalue index is within the closure's own list and the chain designates the innermost binding"),
         _cx("cx_resolve_var_d2b", "x", bounds="same with 3+2+0 locals, 1 earlier resolve (not measured after d2 did not close)"),
+        _cx("cx_resolve_var_d2_min", "thorough", bounds="compiler: closure in closure (no own locals) in a function with two locals of solver-chosen names, one earlier resolve in the outer closure, any queried name: the upvalue index is the inner closure's own and the chain designates the right local (732 s)", timeout=2400),
         _cx("cx_scope_end_emits", "x", bounds="compiler: scope_end emits one Pop/CloseUpvalue per local of the scope"),
         H("c08", "cx_compile_probe", "x", bounds="probe: compile main=[SetGlobalVar g = ScalarInt x] with an empty std module: did not close (25 min, 4.5 GB)", stubbing=True, timeout=1500),
     ],
@@ -941,6 +944,8 @@ PROPS["C07"] = dict(
         ("c07_remove_pre4", "x", "5 entries + remove(any)"),
         ("c07_append_pre0", "thorough", "empty + append"),
         ("c07_append_pre3_gap", "x", "keys 0,1,2,4 + append: smallest unused key >= length"),
+        ("c07_append_keys_2_1", "x", "keys 2,1 (set out of order) + append(any value): stored under 3, nothing overwritten; full comparison"),
+        ("c07_append_keys_0_1_2_4", "x", "keys 0,1,2,4 + append(any value): stored under 3... (5 is the next free index not below the length 4); full comparison"),
         ("c07_pop_pre0", "thorough", "pop on empty"),
         ("c07_pop_pre2", "x", "3 entries + pop"),
         ("c07_pop_pre3", "x", "keys 0,1,2,4 + pop"),
@@ -1024,6 +1029,7 @@ PROPS["C06"] = dict(
         _cx("cx_resolve_var_d1b", "thorough", bounds="same with 2+2 locals and two earlier resolves (570 s)"),
         _cx("cx_resolve_var_d1_n20", "thorough", bounds="closure without own locals in a function with two locals of solver-chosen names"),
         _cx("cx_resolve_var_d1_n21", "thorough", bounds="closure with one local in a function with two locals, names solver-chosen (the closure's own local may shadow)"),
+        _cx("cx_resolve_var_d2_min", "thorough", bounds="closure in closure (no own locals) in a function with two locals, one earlier resolve in the outer closure: non-local upvalue chain (732 s)", timeout=2400),
         _cx("cx_resolve_var_d2", "x", bounds="(did not close: 13.5 GB after 19 min) closure in closure in function, 2+1+1 locals, two earlier resolves per level: non-local upvalue chains"),
         _cx("cx_resolve_var_d2b", "x", bounds="closure in closure, 3+2+0 locals"),
         _vm("c06", "c06_capture_off0_idx0", "x", dispatches=3, bounds="capture local 0 at frame offset 0", objects=True),
@@ -1095,11 +1101,13 @@ PROPS["C17"] = dict(
                 "'does not leak' as the call depth returning to its value before the run.",
     assumptions=["state observed through the verif-hooks accessors"],
     level_text="Bounded model checking with Kani/CBMC: clear() restores every interpreter state component to that of a "
-               "fresh VM for any earlier collection threshold, and repeated runs do not consume call frames.",
+               "fresh VM for any earlier collection threshold, a VM that allocated an empty string accounts zero bytes after "
+               "clear(), and repeated runs do not consume call frames.",
     level_note="Trusted: Kani/CBMC; state components enumerated in harness/src/c17.rs.",
     design_ref="DESIGN.md §3 C17",
     cap=dict(quick=600, thorough=900), mem_gb=18, jobs=3,
     harnesses=[
+        H("c05", "c05_ledger_empty_string_200", bounds="a VM that allocated an empty string (zero-length buffer) and was cleared accounts zero bytes, like a fresh one", limits=_C05_LIM),
         _vm("c17", "c17_clear_equals_fresh", dispatches=0, bounds="clear() vs fresh VM, any earlier threshold",
             limits={r"vm::runtime::RuntimeData::clear_objects$#*": 3}),
         _vm("c17", "c17_run_three_times_ok", dispatches=4, bounds="[int x][Pop][Exit] run three times, call stack capacity 2"),
